@@ -9,4 +9,20 @@ CHECKS = {
    technique="TLA+ spec PtsCore: TLC exhaustive on scaled timeline + Apalache symbolic at real 2^33 width; TLC trace validation of real gots.PTS calls",
    text="The laws of C15 are written once (PtsCore) over an abstract numeric back-end. TLC checks them for all pairs/distances of a scaled timeline, Apalache proves them for all 33-bit values symbolically, and every recorded call of the real PTS methods on boundary-dense and random values is validated by TLC against the same text (module Wide supplies 33-bit arithmetic).",
    note=TB),
+ "C01": dict(level="model_checking", design_ref="DESIGN.md 4/C01",
+   technique="TLA+ spec TsHeader (bit-field table of ISO 13818-1): TLC frame/partition model checking; TLC-emitted getter tables compared exhaustively over header bytes x values on the real code; TLC trace validation of setter histories",
+   text="The header is specified as a bit-field list; TLC checks that Set changes exactly its field for all boundary headers and setter sequences, emits the complete getter tables, and the harness enumerates every value of the affected header byte(s) x every in-range value against the real getters/setters/CC helpers using table look-ups only; random setter histories with full 188-byte before/after are validated by TLC as spec steps.",
+   note=TB),
+ "C13": dict(level="model_checking", design_ref="DESIGN.md 4/C13",
+   technique="TLA+ spec Crc (bit-serial definition = table form, model-checked); TLC-computed CRC of all strings of length <=2 compared exhaustively; TLC trace validation of ComputeCRC on single-bit/random strings",
+   text="CRC-32/MPEG-2 is defined in TLA+ as polynomial division; TLC proves the fast form equal on a bounded space and the catalogue check value, computes the CRC of all 65 793 strings of length 0..2 (compared exhaustively with ComputeCRC), and validates every recorded ComputeCRC call (all single-bit strings to 16 bytes, strides/all at section sizes, random to 1024 bytes) including residue zero of data++crc.",
+   note=TB),
+ "C19": dict(level="model_checking", design_ref="DESIGN.md 4/C19",
+   technique="TLA+ spec SegRules (rule table, in/out, Equal): TLC checks equivalence/congruence laws on the finite abstraction and emits the full 256x256x8 closing table, compared exhaustively on real descriptors; TLC trace validation of Equal/CanClose triples",
+   text="The closing relation is a function of (types, event-id-equal, PTS-equal, segnum=segexp); TLC emits all 524 288 rows and the harness checks each on real descriptors built through the public API with every other field randomised (exhaustive over the abstraction). Equality laws are model-checked on the spec and every observed Equal/CanClose value on generated triples is validated by TLC.",
+   note=TB),
+ "C20": dict(level="model_checking", design_ref="DESIGN.md 4/C20",
+   technique="TLA+ spec PmtTypes: TLC-emitted predicate table for all 256 stream types and 4096 Dolby Vision strings compared exhaustively; TLC trace validation of every descriptor decoder on all tags x bodies",
+   text="Stream-type predicates and descriptor decoders are specified from the standards' field layouts; the 256-code table and the profile x level codec strings are compared exhaustively, and all 256 tags x generated bodies are run through every decoder with each result validated by TLC (neutral values for foreign tags included).",
+   note=TB),
 }
